@@ -66,6 +66,17 @@ def scenario(B, G, kind, n, h):
         G.eq("probZ[%d]" % k, B.scalars(st.probability(space, Z)).reshape(-1)[k] * Z, prob[k])
     G.eq("Z", Z, tot)
     G.pos("Z>0", Z)
+    # history: the same object, re-parameterised in place (written through .data), must report the new state
+    P2 = {net: C.load_rbm(B, getattr(st, "rbm_" + net), net + "'") for net in P}
+    prob2 = B.scalars(st.probability(space))
+    psi2 = B.scalars(st.psi(space))
+    Z2 = B.scalars(st.normalization(space)).reshape(-1)[0]
+    tot2 = O.frac(0)
+    for k, v in enumerate(rows):
+        tot2 = tot2 + prob2[k]
+        G.eq("reparam.marginal[%d]" % k, prob2[k], C.rbm_hidden_marginal(O, P2["am"], v))
+        G.eq("reparam.born[%d]" % k, psi2[0, k] * psi2[0, k] + psi2[1, k] * psi2[1, k], prob2[k])
+    G.eq("reparam.Z", Z2, tot2)
     # sensitivity twins (must be refuted by the solver and replay as numeric differences)
     G.twin("twin_marginal", prob[0], 2 * C.rbm_hidden_marginal(O, P["am"], rows[0]))
     if n >= 1:
